@@ -33,6 +33,7 @@ class Style:
     trailing_newline: bool = True
     spicy_comments: bool = False  # comment TEXT that is special in some target language (documentation must stay documentation)
     trailing_comments: bool = False  # `// ...` after a statement on the same line
+    crlf: bool = False  # lines end in CR LF (a file written on Windows)
     join_statements: bool = False  # `a = 1; b = 2` on one line after a semicolon (needs semicolons all/mixed)
 
 
@@ -114,9 +115,10 @@ class _Emitter:
             # (not nl(): a pending joined statement must not be held back at the end of the file)
             self.lines.append(self.cur.rstrip(" "))
             self.cur = ""
-        t = "\n".join(self.lines)
+        eol = "\r\n" if self.style.crlf else "\n"
+        t = eol.join(self.lines)
         if self.style.trailing_newline:
-            t += "\n"
+            t += eol
         return t
 
 
